@@ -952,3 +952,21 @@ func DerivesFromDirectOrCalls(v ssa.Value, pred func(ssa.Value) bool) bool {
 	})
 	return found
 }
+
+// ReachingValues: for a load `*a` of a local cell, the values of the stores
+// that may reach the load (flow-sensitive, same function); otherwise v itself.
+func ReachingValues(v ssa.Value) []ssa.Value {
+	if u, ok := v.(*ssa.UnOp); ok && u.Op == token.MUL {
+		if a, ok := u.X.(*ssa.Alloc); ok {
+			st := reachingStores(a, u)
+			if len(st) > 0 {
+				var out []ssa.Value
+				for _, s := range st {
+					out = append(out, s.Val)
+				}
+				return out
+			}
+		}
+	}
+	return []ssa.Value{v}
+}
